@@ -351,28 +351,36 @@ def _intn(ctx):
                       witness=g.describe(w))
             R2 = reach_under(g, facts, srcs=[s for e in en for s in succ_of(g, e, None)])
             ctx.check(not (R2 & (set(dn) | {un})), "intn/stops-after-limit", c, "parsing continues after lengthLimitExceeded in the same delivery")
-    # (b) completeness: messageStart=4, length=5 -> messageEnd=9
-    for N, complete in ((9, True), (8, False), (10, True)):
-        facts = {lvar: 5, "self.MAX_LENGTH": M, "len(alldata)": N, "messageStart": 4, "currentOffset": 0, "prefixLength": 4}
-        for nm in ("messageStart", "currentOffset", "prefixLength"):
-            pass
-        c = q + f" | <prefix 4 + payload 5, {N} bytes buffered>"
-        R = reach_under(g, facts, srcs=after, avoid=[head])
-        if complete:
-            w = must_pass_under(g, facts, dn, srcs=after, to=[g.exit, head])
-            ctx.check(w is None, "intn/complete-message-delivered", c,
-                      "a string whose last byte has arrived is not delivered until more data comes (depends on segmentation)", witness=g.describe(w))
-        else:
-            ctx.check(not (R & set(dn)), "intn/incomplete-message-waits", c, "a string is delivered although its last byte has not arrived")
-    # (c) loop entry: enough bytes for a prefix, and not paused
-    for N, enter in ((4, True), (3, False)):
-        facts = {"len(alldata)": N, "currentOffset": 0, "prefixLength": 4, "self.paused": False}
-        c = q + f" | <{N} bytes buffered, 4-byte prefix>"
-        R = reach_under(g, facts, srcs=[head])
-        ctx.check((un in R) == enter, "intn/prefix-boundary", c,
-                  "a complete length prefix is not decoded until more data arrives" if enter else "a length prefix is decoded before all its bytes arrived")
-    R = reach_under(g, {"len(alldata)": 20, "currentOffset": 0, "prefixLength": 4, "self.paused": True}, srcs=[head])
-    ctx.check(un not in R and not (R & set(dn)), "intn/pause-honoured", q + " | <paused>", "strings are decoded and delivered although the protocol is paused")
+    # (b), (c) completeness of a message / of a length prefix, and pausing: decided by interpreting dataReceived on concrete buffers and
+    # looking at what is delivered (no local variable names or loop shape assumed)
+    mod = ctx.mod(B)
+
+    def delivered(cls_name, chunks, **attrs):
+        try:
+            return _deliver(mod, cls_name, attrs, chunks, resume=False)
+        except VMError as e:
+            raise AnalysisError(f"{cls_name}: construct outside the interpreter's subset: {e}")
+        except (VMRaise, _NativeRaise) as e:
+            return [("raised", repr(e)[:120])]
+
+    msg = b"\x00\x05hello"
+    for tail, label, want in ((msg[:-1], "prefix 2 + payload 5, one byte missing", []), (msg, "prefix 2 + payload 5, exactly complete", [("string", b"hello")]),
+                              (msg + b"\x00", "prefix 2 + payload 5, one byte of the next prefix", [("string", b"hello")])):
+        got = delivered("Int16StringReceiver", [tail])
+        rule = "intn/incomplete-message-waits" if not want else "intn/complete-message-delivered"
+        ctx.check(got == want, rule, q + f" | <{label}>",
+                  ("a string is delivered (or refused) although its last byte has not arrived: " if not want else
+                   "a string whose last byte has arrived is not delivered until more data comes (depends on segmentation): ") + f"delivered {got!r}")
+    for cls_name, width in (("Int8StringReceiver", 1), ("Int16StringReceiver", 2), ("Int32StringReceiver", 4)):
+        got = delivered(cls_name, [b"\x00" * width])
+        ctx.check(got == [("string", b"")], "intn/prefix-boundary", q + f" | <{width} zero bytes buffered, {width}-byte prefix>",
+                  f"a complete length prefix (announcing an empty string) is not decoded until more data arrives: delivered {got!r}")
+        if width > 1:
+            got = delivered(cls_name, [b"\x00" * (width - 1)])
+            ctx.check(got == [], "intn/prefix-boundary", q + f" | <{width - 1} bytes buffered, {width}-byte prefix>",
+                      f"a length prefix is decoded before all its bytes arrived: {got!r}")
+    got = delivered("Int16StringReceiver", [msg + msg], paused=True)
+    ctx.check(got == [], "intn/pause-honoured", q + " | <paused>", f"strings are decoded and delivered although the protocol is paused: {got!r}")
     # (d) def-use chain of the slices
     def L(e):
         return local_def(f, e)
@@ -743,7 +751,7 @@ class _Transport(VMStub):
         pass
 
 
-def _deliver(mod, cls_name, attrs, chunks):
+def _deliver(mod, cls_name, attrs, chunks, resume=True):
     """Interpret ``cls_name`` of protocols/basic.py on a sequence of deliveries; the object's attributes (whatever they are
     called) are carried from one dataReceived call to the next.  Returns the normalised event trace."""
     ev = []
@@ -788,7 +796,7 @@ def _deliver(mod, cls_name, attrs, chunks):
         if tr.disconnecting:
             break                      # "up to the first close request"
         vm.call_method(o, "dataReceived", c)
-        if o.attrs.get("paused"):     # the application resumes between deliveries
+        if resume and o.attrs.get("paused"):     # the application resumes between deliveries
             vm.call_method(o, "resumeProducing")
     out = []
     for e in ev:
